@@ -29,6 +29,7 @@ import (
 	"google.golang.org/grpc/credentials/insecure"
 	"google.golang.org/grpc/metadata"
 	"google.golang.org/grpc/peer"
+	"google.golang.org/grpc/stats"
 	"google.golang.org/grpc/status"
 	"google.golang.org/grpc/verif/chanfix"
 	"google.golang.org/grpc/verif/vlib"
@@ -60,6 +61,10 @@ type scenario struct {
 	Steps           []step        `json:"steps"`
 	// hostile family
 	Opens []rpcSpec `json:"opens,omitempty"`
+	// handshake family
+	StopKind string `json:"stop_kind,omitempty"` // stop | gstop
+	Teardown string `json:"teardown,omitempty"`  // quota (reader parked behind orphaned handlers) | connend (slow stats.Handler ConnEnd)
+	Pending  int    `json:"pending,omitempty"`   // connections whose handshake is held open across the stop call
 }
 
 var handlerCodes = []codes.Code{codes.OK, codes.OK, codes.OK, codes.OK, codes.NotFound, codes.Internal, codes.Aborted,
@@ -82,6 +87,23 @@ func genSpec(rng *rand.Rand) rpcSpec {
 func gen(rng *rand.Rand, fam string) scenario {
 	sc := scenario{Fam: fam, MaxStreams: vlib.Pick(rng, 1, 1, 2, 2, 3, 4, 0), StreamWorkers: vlib.Pick(rng, 0, 0, 0, 2, 8),
 		WaitForHandlers: rng.Intn(4) == 0}
+	if fam == "handshake" {
+		// Directed: one or two connections are accepted by the server but their
+		// HTTP/2 handshake is held open (the scripted client withholds its preface);
+		// another connection is made slow to tear down; the stop call is made; only
+		// then are the handshakes allowed to finish and streams opened on them.
+		sc.MaxStreams = vlib.Pick(rng, 1, 1, 2)
+		sc.StopKind = vlib.Pick(rng, "stop", "stop", "stop", "stop", "gstop")
+		sc.Teardown = vlib.Pick(rng, "quota", "connend")
+		sc.Pending = 1 + rng.Intn(2)
+		for i := 0; i < sc.MaxStreams; i++ {
+			sc.Opens = append(sc.Opens, rpcSpec{Kind: "stubborn", Code: handlerCodes[rng.Intn(len(handlerCodes))]})
+		}
+		for i := 0; i < 1+2*sc.Pending; i++ {
+			sc.Opens = append(sc.Opens, rpcSpec{Kind: vlib.Pick(rng, "gated", "gated", "timed"), Dur: 10 * time.Millisecond, Code: handlerCodes[rng.Intn(len(handlerCodes))]})
+		}
+		return sc
+	}
 	if fam == "parked" {
 		// Directed: fill the handler quota of every connection with handlers that
 		// ignore their context, cancel those RPCs at the client (the streams go, the
@@ -219,6 +241,7 @@ type rpcRec struct {
 	exitReason  string // gate | ctx | timer
 	cut         bool   // the handler was still running when a Stop call returned
 	lateOpen    bool   // hostile family: opened after the peer had read the final GOAWAY
+	postStop    bool   // handshake family: opened on a connection whose handshake finished after the stop call, one quiescent point later
 	handlerCode codes.Code
 	handlerMsg  string
 }
@@ -240,16 +263,17 @@ type monitor struct {
 	viol    [][2]string
 	cnt     map[string]int64
 
-	stops        []*stopCall
-	firstStopQ   int // clock value at the first quiescent point after the first stop/gracefulstop call (0 = none yet)
-	stopCalled   bool
-	stopReturned bool // some Stop() has returned
-	gsReturned   bool
-	waitHandlers bool
-	hostile      bool // the generic start-after-stop rule does not bind a client that ignores GOAWAY
-	emit         func(key, msg string)
-	flushed      int
-	stuck        bool
+	stops            []*stopCall
+	firstStopQ       int // clock value at the first quiescent point after the first stop/gracefulstop call (0 = none yet)
+	stopCalled       bool
+	stopReturned     bool // some Stop() has returned
+	gsReturned       bool
+	waitHandlers     bool
+	hostile          bool // the generic start-after-stop rule does not bind a client that ignores GOAWAY
+	handshakePending bool // a stop call legitimately waits for an in-flight handshake: nothing is judged about its effect yet
+	emit             func(key, msg string)
+	flushed          int
+	stuck            bool
 }
 
 func (m *monitor) v(key, f string, a ...any) {
@@ -335,6 +359,9 @@ func (m *monitor) enter(ctx context.Context) *rpcRec {
 		if m.running[conn] > m.limit {
 			m.v("handler-limit-exceeded", "connection %s: %d handlers run at once, MaxConcurrentStreams is %d; running: %v", conn, m.running[conn], m.limit, m.runningList())
 		}
+	}
+	if r.postStop {
+		m.v("accepted-after-stop", "rpc %d was opened on a connection whose handshake completed after the server's Stop call (and after a further quiescent point), yet its handler was entered", id)
 	}
 	if r.lateOpen {
 		m.v("accepted-after-goaway", "stream of rpc %d was opened after the scripted client had read the server's final GOAWAY, yet its handler was entered", id)
@@ -649,6 +676,9 @@ func (m *monitor) atQuiescence(label string) {
 	m.mu.Lock()
 	defer m.mu.Unlock()
 	m.cnt["quiescent_checks"]++
+	if m.handshakePending {
+		return
+	}
 	if len(m.stops) > 0 && m.firstStopQ == 0 {
 		m.firstStopQ = m.tick()
 	}
@@ -1088,6 +1118,209 @@ func runHostile(sc scenario, emit func(key, msg string)) *result {
 	return res
 }
 
+// ---------------------------------------------------------------- family "handshake"
+
+// slowConnEnd is a stats.Handler whose ConnEnd notification blocks until
+// released: it only delays the moment at which the server forgets a connection
+// that is already closed, which keeps Server.stop in its wait loop.
+type slowConnEnd struct{ release chan struct{} }
+
+func (h *slowConnEnd) TagRPC(ctx context.Context, _ *stats.RPCTagInfo) context.Context { return ctx }
+func (h *slowConnEnd) HandleRPC(context.Context, stats.RPCStats)                       {}
+func (h *slowConnEnd) TagConn(ctx context.Context, _ *stats.ConnTagInfo) context.Context {
+	return ctx
+}
+func (h *slowConnEnd) HandleConn(_ context.Context, s stats.ConnStats) {
+	if _, ok := s.(*stats.ConnEnd); ok {
+		<-h.release
+	}
+}
+
+// runHandshake: connections that are in the middle of their handshake when the
+// stop call is made must not survive it.
+func runHandshake(sc scenario, emit func(key, msg string)) *result {
+	m := newMonitor(sc, sc.Opens, emit)
+	m.hostile = true
+	lis := chanfix.NewListener()
+	opts := serverOpts(sc)
+	sh := &slowConnEnd{release: make(chan struct{})}
+	if sc.Teardown == "connend" {
+		opts = append(opts, grpc.StatsHandler(sh))
+	}
+	srv := grpc.NewServer(opts...)
+	srv.RegisterService(m.service(), nil)
+	var srvWG sync.WaitGroup
+	srvWG.Add(1)
+	go func() { defer srvWG.Done(); srv.Serve(lis) }()
+	st := &stopper{m: m, srv: srv}
+	res := &result{counters: m.cnt}
+	quiesce := func(label string) {
+		m.flushSoft()
+		synctest.Wait()
+		m.atQuiescence(label)
+		m.flushSoft()
+	}
+	connA, _, err := lis.Dial()
+	if err != nil {
+		emit("harness", "dial: "+err.Error())
+		srv.Stop()
+		srvWG.Wait()
+		return res
+	}
+	a := wire.NewPeer(connA, false)
+	if err := a.Start(); err != nil {
+		emit("harness", "start: "+err.Error())
+		srv.Stop()
+		srvWG.Wait()
+		return res
+	}
+	var pend []*wire.Peer
+	for i := 0; i < sc.Pending; i++ {
+		c, _, err := lis.Dial()
+		if err != nil {
+			emit("harness", "dial: "+err.Error())
+			continue
+		}
+		pend = append(pend, wire.NewPeer(c, false)) // accepted by the server, client preface withheld
+	}
+	quiesce("start")
+	next := 0
+	open := func(p *wire.Peer, sid uint32, post bool) {
+		if next >= len(sc.Opens) {
+			return
+		}
+		id := next
+		next++
+		m.mu.Lock()
+		m.rpcs[id].started, m.rpcs[id].startSeq, m.rpcs[id].postStop = true, m.tick(), post
+		if post {
+			m.cnt["streams_opened_on_late_handshake_conns"]++
+		} else {
+			m.cnt["streams_opened"]++
+		}
+		m.mu.Unlock()
+		p.WriteHeaders(sid, false, 0, wire.RequestHeaders("/verif.Stop/Stream", wire.F("x-rid", strconv.Itoa(id)))...)
+		p.WriteData(sid, wire.Msg([]byte("q")), true, -1)
+	}
+	sidA := uint32(1)
+	if sc.Teardown == "quota" {
+		// fill A's handler quota with handlers that ignore their context, reset
+		// those streams, and let one more stream park the server's reader
+		for i := 0; i < sc.MaxStreams; i++ {
+			open(a, sidA, false)
+			sidA += 2
+		}
+		quiesce("fill")
+		for i := 0; i < sc.MaxStreams; i++ {
+			a.WriteRST(uint32(1+2*i), http2.ErrCodeCancel)
+			m.mu.Lock()
+			m.rpcs[i].cancelled = true
+			m.cnt["client_cancels"]++
+			m.mu.Unlock()
+		}
+		quiesce("orphan")
+		open(a, sidA, false)
+		sidA += 2
+		quiesce("park")
+	} else {
+		next = sc.MaxStreams // the stubborn specs are not used here
+		open(a, sidA, false)
+		sidA += 2
+		quiesce("open")
+	}
+	m.mu.Lock()
+	m.handshakePending = true
+	m.mu.Unlock()
+	st.issue(false, sc.StopKind)
+	quiesce("stop-with-handshakes-pending")
+	// now the held handshakes complete
+	readerUp := make([]bool, len(pend))
+	for i, p := range pend {
+		if err := p.Start(); err != nil {
+			m.mu.Lock()
+			m.cnt["late_handshake_conn_already_closed"]++
+			m.mu.Unlock()
+		} else {
+			readerUp[i] = true
+		}
+	}
+	m.mu.Lock()
+	m.handshakePending = false
+	m.cnt["handshakes_released_after_stop_call"] += int64(len(pend))
+	m.mu.Unlock()
+	quiesce("handshakes-released")
+	if sc.StopKind == "stop" {
+		for i, p := range pend {
+			ended, _ := p.ReadEnded()
+			ended = ended || !readerUp[i]
+			m.mu.Lock()
+			m.cnt["late_handshake_conns_checked"]++
+			if !ended {
+				m.v("connection-alive-after-stop", "connection %d finished its handshake after Stop() had been called; everything is quiescent, but the server has not closed it (Stop must leave no live connection behind)", i+1)
+			}
+			m.mu.Unlock()
+		}
+	}
+	for _, p := range pend {
+		open(p, 1, true)
+		open(p, 3, true)
+	}
+	quiesce("post-stop-open")
+	m.release(-1)
+	close(sh.release)
+	quiesce("drain-release")
+	for round := 0; round < 2; round++ {
+		time.Sleep(6 * time.Second)
+		quiesce("drain-sleep")
+	}
+	m.mu.Lock()
+	pendingStop := false
+	for _, c := range m.stops {
+		if !c.returned {
+			pendingStop = true
+			m.v(c.kind+"-never-returned", "%s was called at t=%d; every gate is open, every connection that existed when it was called is gone and everything is quiescent, but the call has not returned; running: %v", c.kind, c.callSeq, m.runningList())
+		}
+	}
+	for id, r := range m.rpcs {
+		if r.running {
+			m.v("handler-never-returned", "handler of rpc %d is still running although its gate is open", id)
+		}
+		if r.entries > 0 {
+			m.cnt["rpcs_entered"]++
+		}
+	}
+	res.counters["max_handlers_per_conn"] = int64(m.maxRun)
+	res.sig = fmt.Sprintf("handshake/%s/%s/limit=%d/pending=%d", sc.StopKind, sc.Teardown, sc.MaxStreams, sc.Pending)
+	m.mu.Unlock()
+	m.flushSoft()
+	a.Close()
+	for _, p := range pend {
+		p.Close()
+	}
+	if pendingStop {
+		synctest.Wait()
+		m.mu.Lock()
+		for _, c := range m.stops {
+			if !c.returned {
+				m.stuck = true
+			}
+		}
+		m.mu.Unlock()
+	}
+	m.flush()
+	srv.Stop()
+	st.wg.Wait()
+	srvWG.Wait()
+	<-a.Done()
+	for i, p := range pend {
+		if readerUp[i] {
+			<-p.Done()
+		}
+	}
+	m.flush()
+	return res
+}
+
 // ---------------------------------------------------------------- driver
 
 func runFam(t *testing.T, r *vlib.Run, fam string, n int) {
@@ -1106,6 +1339,8 @@ func runFam(t *testing.T, r *vlib.Run, fam string, n int) {
 		synctest.Test(t, func(t *testing.T) {
 			if fam == "hostile" {
 				res = runHostile(sc, emit)
+			} else if fam == "handshake" {
+				res = runHandshake(sc, emit)
 			} else {
 				res = runClients(sc, emit)
 			}
@@ -1137,9 +1372,10 @@ func TestVerifC25(t *testing.T) {
 	runFam(t, r, "clients", r.N(1500, 24000)/light())
 	runFam(t, r, "hostile", r.N(1000, 16000)/light())
 	runFam(t, r, "parked", r.N(1200, 12000)/light())
+	runFam(t, r, "handshake", r.N(400, 4000)/light())
 	r.Finish(vlib.Spec{
 		Level: "exploration",
-		Rule:  "real grpc.Server (unary + streaming methods, MaxConcurrentStreams in {unset,1..5}, NumStreamWorkers in {0,2,8}, WaitForHandlers on in 1/4) whose handlers log entry/exit and block on a gate or ctx (gated), on a gate only (stubborn) or on a virtual timer; family clients: 1-5 real channels x 1-5 workers issuing 2-8 sequential RPCs each, 10-45 steps: release 1-3 gates, cancel an open RPC at the client, virtual sleeps, GracefulStop / Stop / both at the same instant (up to 3 stop operations), channels created after the stop; family parked: the directed sequence 'fill every connection's handler quota with stubborn handlers, cancel those RPCs, let the next RPC of each worker park the server's reader behind the quota, lone Stop (WaitForHandlers in 4/5) or GracefulStop, then release'; family hostile: a scripted HTTP/2 client that ignores MAX_CONCURRENT_STREAMS and GOAWAY, opens 6-35 streams in bursts, resets some and opens more after the shutdown was announced. Oracles: at every GracefulStop return (and Stop return under WaitForHandlers) no handler is running and none is entered later; without Stop every RPC whose handler was entered and that the client did not cancel completes with exactly the handler's code and message; an RPC started after (stop call + quiescence) never reaches a handler; at (Stop call + quiescence) and at Stop's return every running handler's context is done; an RPC whose handler was unfinished at Stop's return is never OK at the client; handlers running per connection <= MaxConcurrentStreams at every handler entry; no handler entered twice; after opening all gates every stop call returns and every RPC ends. Non-trivial = a stop operation ran and at least one handler was entered; distinct = (family, sequence of stop kinds, limit, limit reached exactly, entries after Stop, which status oracles applied).",
+		Rule:  "real grpc.Server (unary + streaming methods, MaxConcurrentStreams in {unset,1..5}, NumStreamWorkers in {0,2,8}, WaitForHandlers on in 1/4) whose handlers log entry/exit and block on a gate or ctx (gated), on a gate only (stubborn) or on a virtual timer; family clients: 1-5 real channels x 1-5 workers issuing 2-8 sequential RPCs each, 10-45 steps: release 1-3 gates, cancel an open RPC at the client, virtual sleeps, GracefulStop / Stop / both at the same instant (up to 3 stop operations), channels created after the stop; family parked: the directed sequence 'fill every connection's handler quota with stubborn handlers, cancel those RPCs, let the next RPC of each worker park the server's reader behind the quota, lone Stop (WaitForHandlers in 4/5) or GracefulStop, then release'; family handshake: 1-2 connections accepted by the server with their client preface withheld, another connection made slow to tear down (reader parked behind orphaned handlers, or a stats.Handler whose ConnEnd blocks), Stop (4/5) or GracefulStop, then the handshakes are released and streams opened on those connections; family hostile: a scripted HTTP/2 client that ignores MAX_CONCURRENT_STREAMS and GOAWAY, opens 6-35 streams in bursts, resets some and opens more after the shutdown was announced. Oracles: at every GracefulStop return (and Stop return under WaitForHandlers) no handler is running and none is entered later; without Stop every RPC whose handler was entered and that the client did not cancel completes with exactly the handler's code and message; an RPC started after (stop call + quiescence) never reaches a handler; at (Stop call + quiescence) and at Stop's return every running handler's context is done; an RPC whose handler was unfinished at Stop's return is never OK at the client; a connection whose handshake finished after Stop was called is closed at the next quiescent point and streams opened on it never reach a handler; handlers running per connection <= MaxConcurrentStreams at every handler entry; no handler entered twice; after opening all gates every stop call returns and every RPC ends. Non-trivial = a stop operation ran and at least one handler was entered; distinct = (family, sequence of stop kinds, limit, limit reached exactly, entries after Stop, which status oracles applied).",
 		Assumptions: []string{"connections are told apart by the remote address the test listener assigns",
 			"'accepted afterwards' is judged for RPCs the client starts after the stop call plus one exact quiescent point: streams already in flight or parked behind the handler quota when the stop call is made are legitimately served later",
 			"a handler's exit is stamped before it returns to grpc, its entry after grpc called it, so the monitored running-set is a subset of the real one"},
